@@ -175,7 +175,11 @@ fn k_path_root_mutation() {
     let ok = |cx: &Context| ph != Phase::Mark || cx_root_flag(cx);
     match which {
         0 => {
-            arena.mutate_root(|mc, root| { root.slot = Some(Gc::new(mc, 1u8)); });
+            arena.mutate_root(|mc, root| {
+                // C11: the flag must already be set when the callback starts - a callback that stores a pointer and then panics leaves no later chance
+                assert!(ph != Phase::Mark || cx_root_flag(mc_cx(mc)), "[order] while marking the root is flagged BEFORE the callback runs");
+                root.slot = Some(Gc::new(mc, 1u8));
+            });
             assert!(ok(ctx(&arena)), "[adopt] the root may hold new pointers: it is flagged for re-tracing while marking");
             assert!(cx_phase(ctx(&arena)) == ph && cx_root_flag(ctx(&arena)) == (f0 || ph == Phase::Mark), "[frame]");
             let c1 = get_counters(cx_metrics(ctx(&arena)));
@@ -183,12 +187,18 @@ fn k_path_root_mutation() {
             core::mem::forget(arena);
         }
         1 => {
-            let a2 = arena.map_root::<Rootable![Gc<'_, u8>]>(|mc, _old| Gc::new(mc, 2u8));
+            let a2 = arena.map_root::<Rootable![Gc<'_, u8>]>(|mc, _old| {
+                assert!(ph != Phase::Mark || cx_root_flag(mc_cx(mc)), "[order] while marking the root is flagged BEFORE the callback runs");
+                Gc::new(mc, 2u8)
+            });
             assert!(ok(ctx(&a2)) && cx_phase(ctx(&a2)) == ph, "[adopt]");
             core::mem::forget(a2);
         }
         _ => {
-            let r = arena.try_map_root::<Rootable![Gc<'_, u8>], ()>(|mc, _old| Ok(Gc::new(mc, 3u8)));
+            let r = arena.try_map_root::<Rootable![Gc<'_, u8>], ()>(|mc, _old| {
+                assert!(ph != Phase::Mark || cx_root_flag(mc_cx(mc)), "[order] while marking the root is flagged BEFORE the callback runs");
+                Ok(Gc::new(mc, 3u8))
+            });
             let a2 = match r { Ok(a) => a, Err(_) => unreachable!() };
             assert!(ok(ctx(&a2)) && cx_phase(ctx(&a2)) == ph, "[adopt]");
             core::mem::forget(a2);
